@@ -499,4 +499,168 @@ example : placePolygon 0 1 ⟨0, 0⟩ ⟨5, 5⟩ [⟨2, 0⟩, ⟨-1, -3 / 2⟩, 
 example : (State.move exMo ⟨.other, .none, none⟩).toOption.isNone = true := by
   simp [State.move, guard, exMo, Pos.move, Except.toOption]; decide +kernel
 
+/-! ### a planning-problem set as objects: goal regions that are shared by, or equal among, several problems -/
+
+/-- invariant of `ProblemSet.loop`: the goal-region objects in `done` hold the image of what they held at the start, all others
+    still hold what they held at the start. -/
+def LoopInv (m : Mo) (orig goals : List (List State)) (done : List Nat) : Prop :=
+  goals.length = orig.length ∧
+  ∀ r, r < orig.length →
+    (r ∈ done → moveStates m (goalAt orig r) = .ok (goalAt goals r)) ∧ (r ∉ done → goalAt goals r = goalAt orig r)
+
+theorem goalAt_set_self (goals : List (List State)) (r : Nat) (g : List State) (h : r < goals.length) :
+    goalAt (goals.set r g) r = g := by
+  simp [goalAt, List.getElem?_set_self h]
+
+theorem goalAt_set_ne (goals : List (List State)) (r q : Nat) (g : List State) (h : r ≠ q) :
+    goalAt (goals.set r g) q = goalAt goals q := by
+  simp [goalAt, List.getElem?_set_ne h]
+
+theorem LoopInv.step {m : Mo} {orig goals : List (List State)} {done : List Nat} (hinv : LoopInv m orig goals done)
+    {r : Nat} (hr : r < orig.length) (hd : r ∉ done) {g' : List State} (hg : moveStates m (goalAt goals r) = .ok g') :
+    LoopInv m orig (goals.set r g') (r :: done) := by
+  refine ⟨by rw [List.length_set]; exact hinv.1, fun q hq => ⟨fun hin => ?_, fun hnin => ?_⟩⟩
+  · by_cases e : r = q
+    · subst e
+      rw [goalAt_set_self _ _ _ (by rw [hinv.1]; exact hr), ← (hinv.2 r hr).2 hd]; exact hg
+    · rw [goalAt_set_ne _ _ _ _ e]
+      have : q ∈ done := by
+        rcases List.mem_cons.mp hin with h | h
+        · exact absurd h.symm e
+        · exact h
+      exact (hinv.2 q hq).1 this
+  · have e : r ≠ q := fun e => hnin (by simp [e])
+    rw [goalAt_set_ne _ _ _ _ e]
+    exact (hinv.2 q hq).2 (fun h => hnin (List.mem_cons_of_mem _ h))
+
+theorem ProblemSet.loop_spec (m : Mo) (orig : List (List State)) :
+    ∀ (rest : List (State × Nat)) (goals : List (List State)) (done : List Nat),
+      LoopInv m orig goals done → (∀ p ∈ rest, p.2 < orig.length) →
+      match ProblemSet.loop m rest goals done with
+      | .error e => moveProblems m (rest.map fun p => ⟨p.1, goalAt orig p.2⟩) = .error e
+      | .ok (ps, g) => ∃ done', LoopInv m orig g done' ∧ (∀ r ∈ done, r ∈ done') ∧
+          moveProblems m (rest.map fun p => ⟨p.1, goalAt orig p.2⟩) = .ok (ps.map fun p => ⟨p.1, goalAt g p.2⟩)
+  | [], goals, done, hinv, _ => by
+    simp only [ProblemSet.loop]
+    exact ⟨done, hinv, fun _ h => h, rfl⟩
+  | p :: rest, goals, done, hinv, hr => by
+    have hp : p.2 < orig.length := hr p (by simp)
+    have hrest : ∀ q ∈ rest, q.2 < orig.length := fun q hq => hr q (by simp [hq])
+    simp only [ProblemSet.loop, List.map_cons, moveProblems, mapR, Problem.move]
+    cases h1 : State.move m p.1 with
+    | error e => simp
+    | ok i' =>
+      by_cases hd : p.2 ∈ done
+      · have ih := ProblemSet.loop_spec m orig rest goals done hinv hrest
+        have hg := (hinv.2 p.2 hp).1 hd
+        simp only [hd, if_true, hg]
+        cases h3 : ProblemSet.loop m rest goals done with
+        | error e =>
+          rw [h3] at ih
+          simp only [moveProblems] at ih
+          simp only [ih]
+        | ok pg =>
+          obtain ⟨ps, g⟩ := pg
+          rw [h3] at ih
+          obtain ⟨done', hinv', hsub, hmv⟩ := ih
+          refine ⟨done', hinv', hsub, ?_⟩
+          have hg' := (hinv'.2 p.2 hp).1 (hsub _ hd)
+          rw [hg] at hg'
+          simp only [moveProblems] at hmv
+          simp only [hmv, List.map_cons]
+          injection hg' with hg'
+          rw [hg']
+      · have ho := (hinv.2 p.2 hp).2 hd
+        simp only [hd, if_false, ← ho]
+        cases h2 : moveStates m (goalAt goals p.2) with
+        | error e => simp
+        | ok g' =>
+          dsimp only
+          have hinv2 := hinv.step hp hd h2
+          have ih := ProblemSet.loop_spec m orig rest (goals.set p.2 g') (p.2 :: done) hinv2 hrest
+          cases h3 : ProblemSet.loop m rest (goals.set p.2 g') (p.2 :: done) with
+          | error e =>
+            rw [h3] at ih
+            simp only [moveProblems] at ih
+            simp only [ih]
+          | ok pg =>
+            obtain ⟨ps, g⟩ := pg
+            rw [h3] at ih
+            obtain ⟨done', hinv', hsub, hmv⟩ := ih
+            refine ⟨done', hinv', fun r hr' => hsub r (List.mem_cons_of_mem _ hr'), ?_⟩
+            have hg' := (hinv'.2 p.2 hp).1 (hsub _ (by simp))
+            rw [← ho, h2] at hg'
+            simp only [moveProblems] at hmv
+            simp only [hmv, List.map_cons]
+            injection hg' with hg'
+            rw [hg']
+
+/-- **Objects and values agree.** For every planning-problem set - whichever problems share ONE goal-region object and
+    whichever goal-region objects are equal by value - `PlanningProblemSet.translate_rotate` (the loop over objects) shows
+    through the public accessors exactly what moving every problem's values once gives, error for error. With
+    `C05_all_moved_problems`: every stored point of every problem is moved exactly once. -/
+theorem C05_problem_set_objects (m : Mo) (ps : ProblemSet) (hr : ∀ p ∈ ps.problems, p.2 < ps.goals.length) :
+    (match ps.move m with | .error e => .error e | .ok ps' => .ok ps'.view) = moveProblems m ps.view := by
+  have h := ProblemSet.loop_spec m ps.goals ps.problems ps.goals []
+    ⟨rfl, fun r _ => ⟨fun h => absurd h (by simp), fun _ => rfl⟩⟩ hr
+  simp only [ProblemSet.move, ProblemSet.view]
+  cases h3 : ProblemSet.loop m ps.problems ps.goals [] with
+  | error e => rw [h3] at h; simp only [h]
+  | ok pg =>
+    obtain ⟨p, g⟩ := pg
+    rw [h3] at h
+    obtain ⟨_, _, _, hmv⟩ := h
+    simp only [hmv]
+
+/-- … hence for an admissible motion and well-formed states the call on the objects never fails and everything the problems
+    show is moved, shared and twin goal regions included. -/
+theorem C05_all_moved_problem_set (m : Mo) (h : Adm m) (ps : ProblemSet) (hr : ∀ p ∈ ps.problems, p.2 < ps.goals.length)
+    (hw : ∀ pp ∈ ps.view, pp.WF m.τ) :
+    ∃ ps', ps.move m = .ok ps' ∧ Moved m (obsL Problem.obs ps.view) (obsL Problem.obs ps'.view) := by
+  obtain ⟨l', e, hm, _⟩ := C05_all_moved_problems m h ps.view hw
+  have ho := C05_problem_set_objects m ps hr
+  rw [e] at ho
+  cases h3 : ps.move m with
+  | error e' => rw [h3] at ho; simp at ho
+  | ok ps' =>
+    rw [h3] at ho
+    simp only [Except.ok.injEq] at ho
+    exact ⟨ps', rfl, by rw [ho]; exact hm⟩
+
+/-- two problems (starting at (0, 0) and (0, 4)) holding ONE goal-region object whose only state is at (1, 0). -/
+def exShared : ProblemSet :=
+  ⟨[[⟨.pt ⟨1, 0⟩, .none, none⟩]], [(⟨.pt ⟨0, 0⟩, .none, none⟩, 0), (⟨.pt ⟨0, 4⟩, .none, none⟩, 0)]⟩
+
+/-- two problems with two goal-region objects of EQUAL value (twins). -/
+def exTwins : ProblemSet :=
+  ⟨[[⟨.pt ⟨1, 0⟩, .none, none⟩], [⟨.pt ⟨1, 0⟩, .none, none⟩]], [(⟨.pt ⟨0, 0⟩, .none, none⟩, 0), (⟨.pt ⟨0, 4⟩, .none, none⟩, 1)]⟩
+
+def goalPts (r : Res ProblemSet) (i : Nat) : List Pt :=
+  match r with
+  | .ok ps => (obsL State.obs (goalAt ps.goals i)).pts
+  | .error _ => []
+
+/-- Refuting witness for the loop before the repair b4f94f9 (every problem moves the goal-region object it holds): the shared
+    object ends up at `R(R(p + t) + t)`, which is not the motion; the repaired loop moves it once. -/
+theorem C05_witness_shared_goal_moved_twice :
+    goalPts (match ProblemSet.loopEach exMo exShared.problems exShared.goals with
+             | .ok (p, g) => .ok ⟨g, p⟩ | .error e => .error e) 0 = [exMo.mv (exMo.mv ⟨1, 0⟩)]
+    ∧ goalPts (exShared.move exMo) 0 = [exMo.mv ⟨1, 0⟩]
+    ∧ exMo.mv (exMo.mv ⟨1, 0⟩) ≠ exMo.mv ⟨1, 0⟩ := by
+  decide +kernel
+
+/-- Refuting witness for "move each goal region once" over a container in which equal VALUES collapse (a `set` of goal
+    regions: `GoalRegion.__hash__` / `__eq__` go by value): of two twins only one is picked, the other problem's goal region
+    stays where it was; the loop over objects moves both. -/
+theorem C05_witness_twin_goal_left :
+    goalAt exTwins.goals 0 = goalAt exTwins.goals 1
+    ∧ goalPts (exTwins.movePicked exMo [0]) 1 = [⟨1, 0⟩]
+    ∧ goalPts (exTwins.move exMo) 0 = [exMo.mv ⟨1, 0⟩] ∧ goalPts (exTwins.move exMo) 1 = [exMo.mv ⟨1, 0⟩]
+    ∧ exMo.mv ⟨1, 0⟩ ≠ (⟨1, 0⟩ : Pt) := by
+  refine ⟨rfl, ?_, ?_, ?_, ?_⟩ <;> decide +kernel
+
+/-- the hypotheses of `C05_problem_set_objects` / `C05_all_moved_problem_set` are satisfiable by sets with shared and twin goals. -/
+example : (∀ p ∈ exShared.problems, p.2 < exShared.goals.length) ∧ (∀ p ∈ exTwins.problems, p.2 < exTwins.goals.length) := by
+  decide
+
 end CR.Rigid
